@@ -194,7 +194,16 @@ pub fn replay_crates(files: &[(String, String, String)], schedule: &[String], la
     sc.mkdir("out");
     args.extend([s("-d"), out.to_string_lossy().into_owned()]);
     for (stem, krate, src) in files {
-        let p = sc.write(&format!("ws/{krate}/src/{stem}.rs"), src.as_bytes());
+        // a source of the form `-><crate>/<stem>` makes this file a symbolic link to that (earlier) file
+        let p = if let Some(target) = src.strip_prefix("->") {
+            sc.mkdir(&format!("ws/{krate}/src"));
+            let p = sc.path(&format!("ws/{krate}/src/{stem}.rs"));
+            let (tc, ts) = target.split_once('/').unwrap_or(("", target));
+            let _ = std::os::unix::fs::symlink(sc.path(&format!("ws/{tc}/src/{ts}.rs")), &p);
+            p
+        } else {
+            sc.write(&format!("ws/{krate}/src/{stem}.rs"), src.as_bytes())
+        };
         args.push(p.to_string_lossy().into_owned());
     }
     let expanded: Vec<String> = schedule.iter().flat_map(|l| match l.strip_prefix("send:") {
